@@ -289,3 +289,224 @@ def expand_events(ctx, f, events, depth=2, want=None, may_raise=None, cap=400):
     else:
       outs = [o + t for o in outs for t in tails][:cap]
   return outs
+
+
+# ------------------------------------------------------- idiom closure of facts
+_MIRROR = {ast.Lt: ast.Gt, ast.Gt: ast.Lt, ast.LtE: ast.GtE, ast.GtE: ast.LtE, ast.Eq: ast.Eq, ast.NotEq: ast.NotEq}
+_NEGATE = {ast.Lt: ast.GtE, ast.GtE: ast.Lt, ast.Gt: ast.LtE, ast.LtE: ast.Gt, ast.Eq: ast.NotEq, ast.NotEq: ast.Eq,
+           ast.Is: ast.IsNot, ast.IsNot: ast.Is, ast.In: ast.NotIn, ast.NotIn: ast.In}
+_OPTXT = {ast.Lt: '<', ast.Gt: '>', ast.LtE: '<=', ast.GtE: '>=', ast.Eq: '==', ast.NotEq: '!=', ast.Is: 'is', ast.IsNot: 'isnot',
+          ast.In: 'in', ast.NotIn: 'notin'}
+
+
+def _t(node):
+  return unparse(node).replace(' ', '')
+
+
+def equiv_facts(node, truth):
+  """All equivalent spellings (text without spaces, truth) of an atomic branch fact, per the
+  idiom table of DESIGN.md 4.2: negated / mirrored comparisons, `not x`, is-None vs
+  truthiness of optionals, non-emptiness idioms (x, any(x), len(x) > 0, len(x) != 0,
+  len(x) >= 1, bool(x)), size == 0 vs falsiness."""
+  out = set()
+
+  def add(text, t):
+    out.add((text, t))
+    if text.startswith('not') and not text[3:4].isalnum() or text.startswith('not('):
+      pass
+    out.add(('not' + text, not t))
+    out.add(('not(' + text + ')', not t))
+
+  def truthy(x, t):
+    """x is truthy (t) / falsy (not t)"""
+    add(x, t)
+    add(x + 'isNone', not t)
+    add(x + 'isnotNone', t)
+    for s in ('any(%s)', 'bool(%s)', 'len(%s)>0', 'len(%s)!=0', 'len(%s)>=1'):
+      add(s % x, t)
+    add('len(%s)==0' % x, not t)
+    add('0<len(%s)' % x, t)
+  while isinstance(node, ast.UnaryOp) and isinstance(node.op, ast.Not):
+    node, truth = node.operand, not truth
+  if isinstance(node, ast.Compare) and len(node.ops) == 1:
+    op = type(node.ops[0])
+    l, r = node.left, node.comparators[0]
+    lt, rt = _t(l), _t(r)
+    add(lt + _OPTXT[op] + rt, truth)
+    if op in _NEGATE:
+      add(lt + _OPTXT[_NEGATE[op]] + rt, not truth)
+    if op in _MIRROR:
+      add(rt + _OPTXT[_MIRROR[op]] + lt, truth)
+      add(rt + _OPTXT[_NEGATE[_MIRROR[op]]] + lt, not truth)
+    # is None / is not None  <-> truthiness of an optional
+    if op in (ast.Is, ast.IsNot) and rt == 'None':
+      isnone = truth if op is ast.Is else not truth
+      add(lt, not isnone)
+    # non-emptiness / zero tests
+    if isinstance(l, ast.Call) and isinstance(l.func, ast.Name) and l.func.id == 'len' and len(l.args) == 1 and isinstance(r, ast.Constant):
+      x = _t(l.args[0])
+      v = r.value
+      ne = None
+      if (op, v) in ((ast.Gt, 0), (ast.NotEq, 0), (ast.GtE, 1)):
+        ne = truth
+      elif (op, v) in ((ast.Eq, 0), (ast.LtE, 0), (ast.Lt, 1)):
+        ne = not truth
+      if ne is not None:
+        truthy(x, ne)
+    if isinstance(r, ast.Constant) and r.value == 0 and not isinstance(r.value, bool) and op in (ast.Eq, ast.NotEq):
+      zero = truth if op is ast.Eq else not truth
+      add(lt, not zero)
+    return out
+  if isinstance(node, ast.Call) and isinstance(node.func, ast.Name) and node.func.id in ('any', 'bool') and len(node.args) == 1 \
+      and not isinstance(node.args[0], (ast.GeneratorExp, ast.ListComp)):
+    truthy(_t(node.args[0]), truth)
+    return out
+  if isinstance(node, (ast.Name, ast.Attribute, ast.Subscript)):
+    truthy(_t(node), truth)
+    return out
+  add(_t(node), truth)
+  return out
+
+
+import copy as _copy
+
+
+class _SubstNames(ast.NodeTransformer):
+  def __init__(self, env):
+    self.env = env
+
+  def visit_Name(self, node):
+    if isinstance(node.ctx, ast.Load) and node.id in self.env:
+      return ast.copy_location(_copy.deepcopy(self.env[node.id]), node)
+    return node
+
+  def visit_Lambda(self, node):
+    return node
+
+
+def sym_resolve(expr, env):
+  """Substitute local names by the expressions last assigned to them on the path."""
+  if not env or expr is None:
+    return expr
+  try:
+    return _SubstNames(env).visit(_copy.deepcopy(expr))
+  except RecursionError:
+    return expr
+
+
+def _size(node):
+  return sum(1 for _ in ast.walk(node))
+
+
+def sym_env(events, upto=None):
+  """name -> expression (earlier aliases substituted) for the simple `name = expr`
+  assignments seen on a path prefix; any other write to a name forgets it."""
+  from .paths import written_names
+  env = {}
+  for e in (events if upto is None else events[:upto]):
+    if e.kind == 'stmt' and isinstance(e.node, ast.Assign) and len(e.node.targets) == 1 and isinstance(e.node.targets[0], ast.Name):
+      v = sym_resolve(e.node.value, env)
+      nm = e.node.targets[0].id
+      if _size(v) <= 80:
+        env[nm] = v
+      else:
+        env.pop(nm, None)
+    elif e.kind == 'stmt' and isinstance(e.node, ast.Assign) and len(e.node.targets) == 1 and isinstance(e.node.targets[0], ast.Tuple) \
+        and isinstance(e.node.value, ast.Tuple) and len(e.node.value.elts) == len(e.node.targets[0].elts):
+      vals = [sym_resolve(v, env) for v in e.node.value.elts]
+      for t, v in zip(e.node.targets[0].elts, vals):
+        if isinstance(t, ast.Name):
+          if _size(v) <= 80:
+            env[t.id] = v
+          else:
+            env.pop(t.id, None)
+    elif e.kind in ('stmt', 'for_iter', 'with_enter'):
+      for w in written_names(e.node):
+        env.pop(w, None)
+    elif e.kind == 'handler' and e.node.name:
+      env.pop(e.node.name, None)
+  return env
+
+
+def _alias_facts(node, truth, env, out, depth=0):
+  """Facts implied by an atomic condition after substituting boolean aliases."""
+  out.extend(equiv_facts(node, truth))
+  if depth > 3 or not env:
+    return
+  names = [n.id for n in ast.walk(node) if isinstance(n, ast.Name) and n.id in env]
+  if not names:
+    return
+  sub = sym_resolve(node, env)
+  while isinstance(sub, ast.UnaryOp) and isinstance(sub.op, ast.Not):
+    sub, truth = sub.operand, not truth
+  if isinstance(sub, ast.BoolOp):
+    if isinstance(sub.op, ast.And) and truth:
+      for v in sub.values:
+        _alias_facts(v, True, {}, out, depth + 1)
+    elif isinstance(sub.op, ast.Or) and not truth:
+      for v in sub.values:
+        _alias_facts(v, False, {}, out, depth + 1)
+    return
+  if isinstance(sub, ast.Constant):
+    return
+  out.extend(equiv_facts(sub, truth))
+
+
+def FACTS(events):
+  """Idiom-closed set of (text, truth) facts of the branch conditions on a path prefix,
+  including the facts implied through local boolean aliases (flag = <test>; if flag: ...)."""
+  from .paths import written_names
+  out = []
+  env = {}
+  for e in events:
+    if e.kind == 'cond':
+      _alias_facts(e.node, e.info, env, out)
+    elif e.kind == 'stmt' and isinstance(e.node, ast.Assign) and len(e.node.targets) == 1 and isinstance(e.node.targets[0], ast.Name):
+      v = sym_resolve(e.node.value, env)
+      nm = e.node.targets[0].id
+      if _size(v) <= 60 and not isinstance(v, ast.Constant) and not any(isinstance(x, ast.Name) and x.id == nm for x in ast.walk(v)):
+        env[nm] = v
+      else:
+        env.pop(nm, None)
+    elif e.kind in ('stmt', 'for_iter', 'with_enter'):
+      for w in written_names(e.node):
+        env.pop(w, None)
+  return out
+
+
+def FACTS_I(events, offset=0):
+  from .paths import written_names
+  out = []
+  env = {}
+  for i, e in enumerate(events):
+    if e.kind == 'cond':
+      tmp = []
+      _alias_facts(e.node, e.info, env, tmp)
+      for c, t in tmp:
+        out.append((c, t, i + offset))
+    elif e.kind == 'stmt' and isinstance(e.node, ast.Assign) and len(e.node.targets) == 1 and isinstance(e.node.targets[0], ast.Name):
+      v = sym_resolve(e.node.value, env)
+      nm = e.node.targets[0].id
+      if _size(v) <= 60 and not isinstance(v, ast.Constant) and not any(isinstance(x, ast.Name) and x.id == nm for x in ast.walk(v)):
+        env[nm] = v
+      else:
+        env.pop(nm, None)
+    elif e.kind in ('stmt', 'for_iter', 'with_enter'):
+      for w in written_names(e.node):
+        env.pop(w, None)
+  return out
+
+
+def POS(facts):
+  """Only the spellings that do not start with `not` (every fact has one): for rules that
+  match facts by prefix/suffix/substring instead of exact membership."""
+  return [f for f in facts if not f[0].startswith('not')]
+
+
+def RAW(events):
+  """Literal (text, truth) of the branch conditions, for rules that interpret the node."""
+  return [(unparse(e.node).replace(' ', ''), e.info) for e in events if e.kind == 'cond']
+
+
+def RAW_I(events):
+  return [(unparse(e.node).replace(' ', ''), e.info, i) for i, e in enumerate(events) if e.kind == 'cond']
